@@ -59,6 +59,8 @@ def assemble(tpl_path, repo=REPO, drop_lines=()):
         lines = [l for l in lines if l.strip() != d.strip()]
         if len(lines) != n0 - 1:
             raise ExtractError('%s: probe line to drop not found exactly once: %s' % (tpl_path, d))
+    # names of the collaborator stand-in methods (declared in the template itself) that take the ghost World / Channel
+    world_methods = sorted(set(re.findall(r'\bfn\s+(\w+)\s*(?:<[^>(]*>)?\s*\([^{;]*?Tracked\(\w+\)\s*:\s*Tracked<&mut World', '\n'.join(lines))))
     i = 0
     while i < len(lines):
         ln = lines[i]
@@ -128,7 +130,11 @@ def assemble(tpl_path, repo=REPO, drop_lines=()):
                     spec['derefs'].append((kv2['var'], kv2['fields'].split(',')))
                 elif st2.startswith('//@@ ghostarg '):
                     kv2 = parse_kv(st2[len('//@@ ghostarg '):])
-                    spec['ghost_args'].append((kv2['callee'].split(','), kv2['arg']))
+                    cal = [c for c in kv2.get('callee', '').split(',') if c]
+                    # receivers=a,b: every method of a collaborator stand-in that takes the ghost World, called on one of these receivers
+                    for rcv in [c for c in kv2.get('receivers', '').split(',') if c]:
+                        cal += ['%s.%s' % (rcv, mname) for mname in world_methods]
+                    spec['ghost_args'].append((cal, kv2['arg']))
                 elif m3:
                     spec['sig_sub'].append((m3.group(1), m3.group(2)))
                 elif st2.startswith('//@@'):
@@ -152,6 +158,28 @@ def assemble(tpl_path, repo=REPO, drop_lines=()):
             i += 1
     # visibility is irrelevant to the proof: `pub(crate)` -> `pub` so that spec functions may mention every extracted item
     text = '\n'.join(out) + '\n'
+    # constants: an extracted function may mention a `const` of its source file that the template does not declare (a constant
+    # introduced after the contract was written): the item is pulled in verbatim from that file
+    declared = set(re.findall(r'\b(?:const|static)\s+([A-Z][A-Z0-9_]+)\b', text))
+    pulled = []
+    for info in fns:
+        try:
+            src_text = open(os.path.join(repo, info['file']), encoding='utf-8').read()
+        except OSError:
+            continue
+        lo, hi = info['lines']
+        body_text = '\n'.join(src_text.split('\n')[lo - 1:hi])
+        for name in sorted(set(re.findall(r'\b([A-Z][A-Z0-9_]{2,})\b', body_text))):
+            if name in declared:
+                continue
+            mm = re.search(r'^[ \t]*(?:pub(?:\([a-z]+\))?\s+)?const\s+' + name + r'\s*:[^=;]+=[^;]+;', src_text, re.M)
+            if mm:
+                declared.add(name)
+                pulled.append('// extracted constant (auto, %s): \n%s' % (info['file'], mm.group(0).strip()))
+                items.append(dict(file=info['file'], kind='const', name=name, auto=True))
+    if pulled:
+        k = text.index('verus! {') + len('verus! {')
+        text = text[:k] + '\n' + '\n'.join(pulled) + '\n' + text[k:]
     if 'keep_visibility' not in options:
         text = re.sub(r'\bpub\s*\(\s*crate\s*\)', 'pub', text)
     return text, fns, items
